@@ -106,7 +106,10 @@ def pkg_call_hook(prog: Program, mod, self_cls=None, self_name: str = "self"):
         defaults = f.defaults()
         args = [recv] if recv is not None else []
         for p in names:
-            if p in bound:
+            if p in bound and p in defaults and _ast.dump(bound[p]) == _ast.dump(defaults[p]):
+                # an argument spelled out with the default's own literal is the default
+                args.append(_sp.Function("default")(T.tr(defaults[p])))
+            elif p in bound:
                 args.append(T.tr(bound[p]))
             elif p in defaults:
                 args.append(_sp.Function("default")(T.tr(defaults[p])))
